@@ -1,0 +1,11 @@
+//go:build !verif
+// +build !verif
+
+package hsms
+
+// Verification hooks are compiled out without the build tag "verif".
+
+type verifCounters struct{}
+
+func verifItem(p *parser) {}
+func verifDone(p *parser) {}
